@@ -451,7 +451,7 @@ class UnionLayout(Layout):
         return max((field.width for field in self._fields.values()), default=0)
 
     def const(self, init):
-        if init is not None and len(init) > 1:
+        if init is not None and not isinstance(init, Const) and len(init) > 1:
             raise ValueError("Initializer for at most one field can be provided for "
                              "a union layout (specified: {})"
                              .format(", ".join(init.keys())))
